@@ -316,7 +316,7 @@ func main() {
 				e.Inconclusive(fmt.Sprintf("worker %s/%d died before its first case (exit %d): %s", job.sec, job.shard, r.Exit, tail(r.Stderr, 300)))
 				return
 			}
-			site := lib.PanicSite(firstGoroutine(r.Stderr))
+			site := normSite(lib.PanicSite(firstGoroutine(r.Stderr)))
 			if site == "unknown" {
 				// the trace never enters origami: a defect of this harness, not a verdict
 				e.Inconclusive(fmt.Sprintf("worker %s/%d died outside origami: %s", job.sec, job.shard, head(r.Stderr, 300)))
